@@ -58,52 +58,52 @@ type fcgiPeer struct {
 }
 
 type freq struct {
-	id        int
-	method    string
-	path      string // as sent (under the rule)
-	query     string
-	hdrs      [][2]string
-	body      []byte
-	chunked   bool
-	cl        *hclient
-	peer      *fcgiPeer
-	script    *respScript
-	expectFcgi bool
+	id                   int
+	method               string
+	path                 string // as sent (under the rule)
+	query                string
+	hdrs                 [][2]string
+	body                 []byte
+	chunked              bool
+	cl                   *hclient
+	peer                 *fcgiPeer
+	script               *respScript
+	expectFcgi           bool
 	scriptName, pathInfo string
-	staticTok string // token of the fixture file that must never be returned
+	staticTok            string // token of the fixture file that must never be returned
 }
 
 type respScript struct {
-	status   int    // 0 = no Status header
-	reason   string
-	hdrs     [][2]string
-	body     []byte
-	withCL   bool
-	cuts     []int // cut points of the stdout stream
-	pads     []int
-	stderr   []string // stderr chunks, interleaved
-	hostile  string   // C19: kind of malformed output ("" = conforming)
+	status  int // 0 = no Status header
+	reason  string
+	hdrs    [][2]string
+	body    []byte
+	withCL  bool
+	cuts    []int // cut points of the stdout stream
+	pads    []int
+	stderr  []string // stderr chunks, interleaved
+	hostile string   // C19: kind of malformed output ("" = conforming)
 }
 
 type fcgiRig struct {
-	w       *World
-	c       *sim.Ctl
-	st      *sim.Stream
-	mode    string // C13 | C19
-	root    string
-	errLog  string
-	prefix  string
-	split   string
-	ext     string
-	envs    [][2]string
-	port    int
-	started bool
-	cleanup bool
-	opDone  bool
-	finish  chan struct{}
-	reqs    []*freq
-	peers   []*fcgiPeer
-	dialSeq int
+	w           *World
+	c           *sim.Ctl
+	st          *sim.Stream
+	mode        string // C13 | C19
+	root        string
+	errLog      string
+	prefix      string
+	split       string
+	ext         string
+	envs        [][2]string
+	port        int
+	started     bool
+	cleanup     bool
+	opDone      bool
+	finish      chan struct{}
+	reqs        []*freq
+	peers       []*fcgiPeer
+	dialSeq     int
 	readTimeout time.Duration
 }
 
